@@ -3,4 +3,605 @@ import DC.Proofs.Paging
 
 namespace DC
 
+/-! ### `lexLt` is a strict total order on `List Nat` -/
+
+theorem lexLt_irrefl : ∀ a : List Nat, lexLt a a = false
+  | [] => rfl
+  | a :: as => by simp [lexLt, lexLt_irrefl as]
+
+theorem lexLt_trans : ∀ a b c : List Nat, lexLt a b = true → lexLt b c = true → lexLt a c = true
+  | [], [], _ => by simp [lexLt]
+  | [], _ :: _, [] => by simp [lexLt]
+  | [], _ :: _, _ :: _ => by simp [lexLt]
+  | _ :: _, [], _ => by simp [lexLt]
+  | _ :: _, _ :: _, [] => by simp [lexLt]
+  | a :: as, b :: bs, c :: cs => by
+    have ih := lexLt_trans as bs cs
+    simp only [lexLt]
+    intro h1 h2
+    split at h1
+    · split at h2
+      · have : a < c := by omega
+        simp [this]
+      · split at h2
+        · simp at h2
+        · have : a < c := by omega
+          simp [this]
+    · split at h1
+      · simp at h1
+      · split at h2
+        · have : a < c := by omega
+          simp [this]
+        · split at h2
+          · simp at h2
+          · have h3 : ¬ a < c := by omega
+            have h4 : ¬ c < a := by omega
+            simp [h3, h4, ih h1 h2]
+
+theorem lexLt_total : ∀ a b : List Nat, lexLt a b = true ∨ lexLt b a = true ∨ a = b
+  | [], [] => by simp
+  | [], _ :: _ => by simp [lexLt]
+  | _ :: _, [] => by simp [lexLt]
+  | a :: as, b :: bs => by
+    simp only [lexLt]
+    by_cases h1 : a < b
+    · simp [h1]
+    · by_cases h2 : b < a
+      · simp [h2]
+      · have : a = b := by omega
+        subst this
+        simp only [h1, if_false]
+        rcases lexLt_total as bs with h | h | h
+        · exact Or.inl h
+        · exact Or.inr (Or.inl h)
+        · exact Or.inr (Or.inr (by rw [h]))
+
+/-! ### `Num.lt` is a strict total order -/
+
+theorem Num.lt_irrefl (a : Num) : a.lt a = false := by
+  cases a <;> simp [Num.lt, Num.rank]
+
+theorem Num.lt_trans (a b c : Num) : a.lt b = true → b.lt c = true → a.lt c = true := by
+  cases a <;> cases b <;> cases c <;> simp [Num.lt, Num.rank] <;> omega
+
+theorem Num.lt_total (a b : Num) : a.lt b = true ∨ b.lt a = true ∨ a = b := by
+  cases a <;> cases b <;> simp [Num.lt, Num.rank] <;> omega
+
+/-! ### `SqlVal.lt` / `SqlVal.eqv` -/
+
+theorem SqlVal.lt_irrefl (a : SqlVal) : a.lt a = false := by
+  cases a <;> simp [SqlVal.lt, SqlVal.cls, Num.lt_irrefl, lexLt_irrefl]
+
+theorem SqlVal.lt_trans (a b c : SqlVal) : a.lt b = true → b.lt c = true → a.lt c = true := by
+  cases a <;> cases b <;> cases c <;> simp [SqlVal.lt, SqlVal.cls] <;>
+    first
+      | exact Num.lt_trans _ _ _
+      | exact lexLt_trans _ _ _
+
+theorem SqlVal.eqv_symm (a b : SqlVal) : a.eqv b = true → b.eqv a = true := by
+  cases a <;> cases b <;> simp [SqlVal.eqv] <;> intro h <;> exact h.symm
+
+theorem SqlVal.eqv_trans (a b c : SqlVal) : a.eqv b = true → b.eqv c = true → a.eqv c = true := by
+  cases a <;> cases b <;> cases c <;> simp [SqlVal.eqv] <;> intro h1 h2 <;> exact h1.trans h2
+
+theorem SqlVal.eqv_lt (a b c : SqlVal) : a.eqv b = true → b.lt c = true → a.lt c = true := by
+  cases a <;> cases b <;> cases c <;> simp [SqlVal.eqv, SqlVal.lt, SqlVal.cls] <;>
+    intro h <;> simp [h]
+
+theorem SqlVal.lt_eqv (a b c : SqlVal) : a.lt b = true → b.eqv c = true → a.lt c = true := by
+  cases a <;> cases b <;> cases c <;> simp [SqlVal.eqv, SqlVal.lt, SqlVal.cls] <;>
+    intro h1 h2 <;> simp [← h2, h1]
+
+theorem SqlVal.eqv_not_lt (a b : SqlVal) : a.eqv b = true → a.lt b = false := by
+  cases a <;> cases b <;> simp [SqlVal.eqv, SqlVal.lt, SqlVal.cls] <;>
+    intro h <;> simp [h, Num.lt_irrefl, lexLt_irrefl]
+
+theorem SqlVal.lt_total (a b : SqlVal) (ha : a ≠ .null) (hb : b ≠ .null) :
+    a.lt b = true ∨ b.lt a = true ∨ a.eqv b = true := by
+  cases a <;> cases b <;> simp [SqlVal.eqv, SqlVal.lt, SqlVal.cls] at ha hb ⊢ <;>
+    first
+      | exact Num.lt_total _ _
+      | exact lexLt_total _ _
+
+/-! ### exact numerics -/
+
+theorem two_pow_1074_ne_zero : (2 : Int) ^ 1074 ≠ 0 := Int.pow_ne_zero (by decide)
+
+theorem intNum_inj' (i j : Int) : intNum i = intNum j ↔ i = j := by
+  simp only [intNum, Num.fin.injEq]
+  exact Int.mul_eq_mul_right_iff two_pow_1074_ne_zero
+
+/-- magnitudes of normal doubles with different exponents are ordered by the exponent -/
+theorem mag_lt_gen (K a a' m m' : Nat) (hm : m < K) (h : a < a') :
+    (K + m) * 2^a < (K + m') * 2^a' := by
+  have h1 : (K + m) * 2^a < (K * 2) * 2^a :=
+    Nat.mul_lt_mul_of_pos_right (by omega) (Nat.pow_pos (by decide))
+  have h2 : K * 2 * 2^a = K * 2^(a+1) := by
+    rw [Nat.pow_succ, Nat.mul_assoc, Nat.mul_comm 2]
+  have h3 : 2^(a+1) ≤ 2^a' := Nat.pow_le_pow_right (by decide) h
+  have h4 : K * 2^(a+1) ≤ (K + m') * 2^a' := Nat.mul_le_mul (Nat.le_add_right _ _) h3
+  exact Nat.lt_of_lt_of_le (h2 ▸ h1) h4
+
+theorem mag_lt (a a' m m' : Nat) (hm : m < 2^52) (h : a < a') :
+    (2^52 + m) * 2^a < (2^52 + m') * 2^a' := mag_lt_gen (2^52) a a' m m' hm h
+
+def magOf (e m : Nat) : Nat := if e == 0 then m else (2^52 + m) * 2^(e - 1)
+
+theorem floatMag_eq (f : Nat) : floatMag f = magOf (floatExp f) (floatFrac f) := rfl
+
+theorem magOf_normal_ge (e m : Nat) (he : e ≠ 0) : 2^52 ≤ magOf e m := by
+  simp only [magOf, beq_iff_eq, he, if_false]
+  calc 2^52 ≤ 2^52 + m := Nat.le_add_right _ _
+    _ = (2^52 + m) * 1 := (Nat.mul_one _).symm
+    _ ≤ (2^52 + m) * 2^(e-1) := Nat.mul_le_mul_left _ (Nat.pow_pos (by decide))
+
+theorem magOf_inj (e e' m m' : Nat) (hm : m < 2^52) (hm' : m' < 2^52)
+    (h : magOf e m = magOf e' m') : e = e' ∧ m = m' := by
+  by_cases he : e = 0 <;> by_cases he' : e' = 0
+  · subst he he'; simpa [magOf] using h
+  · have := magOf_normal_ge e' m' he'
+    subst he; simp only [magOf, beq_self_eq_true, if_true] at h this; omega
+  · have := magOf_normal_ge e m he
+    subst he'; simp only [magOf, beq_self_eq_true, if_true] at h this; omega
+  · simp only [magOf, beq_iff_eq, he, he', if_false] at h
+    rcases Nat.lt_trichotomy (e - 1) (e' - 1) with hlt | heq | hgt
+    · have := mag_lt (e-1) (e'-1) m m' hm hlt; omega
+    · rw [heq] at h
+      have := Nat.eq_of_mul_eq_mul_right (Nat.pow_pos (by decide)) h
+      omega
+    · have := mag_lt (e'-1) (e-1) m' m hm' hgt; omega
+
+theorem magOf_eq_zero (e m : Nat) : magOf e m = 0 ↔ e = 0 ∧ m = 0 := by
+  by_cases he : e = 0
+  · subst he; simp [magOf]
+  · have := magOf_normal_ge e m he
+    constructor
+    · intro h; omega
+    · intro h; exact absurd h.1 he
+
+theorem floatFrac_lt (f : Nat) : floatFrac f < 2^52 := Nat.mod_lt _ (by decide)
+
+theorem bits_eq_iff (f g : Nat) (hf : f < 2^64) (hg : g < 2^64) :
+    f = g ↔ (floatSign f = floatSign g ∧ floatExp f = floatExp g ∧ floatFrac f = floatFrac g) := by
+  constructor
+  · intro h; subst h; simp
+  · rintro ⟨h1, h2, h3⟩
+    unfold floatSign floatExp floatFrac at *
+    by_cases hs : f / 2^63 % 2 = 1 <;> by_cases hs' : g / 2^63 % 2 = 1 <;>
+      simp [hs, hs'] at h1 <;> omega
+
+theorem intNum_eq_floatNum' (i : Int) (f : Nat) :
+    intNum i = floatNum f ↔
+      (floatExp f ≠ 2047 ∧ i * 2^1074 = (if floatSign f then -(floatMag f : Int) else floatMag f)) := by
+  unfold intNum floatNum
+  generalize (2 : Int) ^ 1074 = K
+  by_cases he : floatExp f = 2047 <;> cases hs : floatSign f <;> simp [he]
+
+theorem floatNum_eq_iff' (f g : Nat) (hf : f < 2^64) (hg : g < 2^64)
+    (hnf : floatIsNaN f = false) (hng : floatIsNaN g = false) :
+    floatNum f = floatNum g ↔
+      (f = g ∨ (floatMag f = 0 ∧ floatMag g = 0 ∧ floatExp f ≠ 2047 ∧ floatExp g ≠ 2047)) := by
+  rw [bits_eq_iff f g hf hg]
+  have inj := magOf_inj (floatExp f) (floatExp g) (floatFrac f) (floatFrac g)
+    (floatFrac_lt f) (floatFrac_lt g)
+  rw [← floatMag_eq, ← floatMag_eq] at inj
+  simp only [floatIsNaN, Bool.and_eq_false_imp, beq_iff_eq, bne_eq_false_iff_eq] at hnf hng
+  unfold floatNum
+  by_cases ef : floatExp f = 2047 <;> by_cases eg : floatExp g = 2047 <;>
+    cases sf : floatSign f <;> cases sg : floatSign g <;>
+    simp [ef, eg] <;>
+    first
+      | (rw [hnf ef, hng eg]; done)
+      | (intro h; exact absurd h.symm eg)
+      | (constructor
+         · intro h; omega
+         · intro h; omega)
+      | (constructor
+         · intro h; exact Or.inl (inj (by omega))
+         · rintro (⟨h1, h2⟩ | ⟨h1, h2⟩)
+           · rw [floatMag_eq, floatMag_eq, h1, h2]
+           · omega)
+
+/-! ### insertion sort -/
+
+section SortLemmas
+variable {α : Type _} (lt : α → α → Bool)
+
+theorem insertBy_perm (x : α) : ∀ l : List α, (insertBy lt x l).Perm (x :: l)
+  | [] => List.Perm.refl _
+  | y :: ys => by
+    simp only [insertBy]
+    split
+    · exact ((insertBy_perm x ys).cons y).trans (List.Perm.swap x y ys)
+    · exact List.Perm.refl _
+
+theorem isort_perm' : ∀ l : List α, (isort lt l).Perm l
+  | [] => List.Perm.refl _
+  | x :: xs => (insertBy_perm lt x (isort lt xs)).trans ((isort_perm' xs).cons x)
+
+theorem mem_insertBy {x y : α} {l : List α} : y ∈ insertBy lt x l ↔ y = x ∨ y ∈ l := by
+  rw [(insertBy_perm lt x l).mem_iff, List.mem_cons]
+
+theorem mem_isort {y : α} {l : List α} : y ∈ isort lt l ↔ y ∈ l := (isort_perm' lt l).mem_iff
+
+theorem length_isort (l : List α) : (isort lt l).length = l.length := (isort_perm' lt l).length_eq
+
+/-- weak sortedness, for an order that is asymmetric and negatively transitive on `P` -/
+theorem insertBy_sorted_weak (P : α → Prop)
+    (hasym : ∀ a b, lt a b = true → lt b a = false)
+    (hneg : ∀ a b c, P a → P b → P c → lt a b = false → lt b c = false → lt a c = false)
+    (x : α) (hx : P x) : ∀ l : List α, (∀ y ∈ l, P y) →
+      l.Pairwise (fun a b => lt b a = false) → (insertBy lt x l).Pairwise (fun a b => lt b a = false)
+  | [], _, _ => by simp [insertBy]
+  | y :: ys, hP, hs => by
+    have hs' := List.pairwise_cons.1 hs
+    simp only [insertBy]
+    split
+    · next hyx =>
+      refine List.pairwise_cons.2 ⟨?_, insertBy_sorted_weak P hasym hneg x hx ys
+        (fun z hz => hP z (List.mem_cons_of_mem _ hz)) hs'.2⟩
+      intro z hz
+      rcases (mem_insertBy lt).1 hz with rfl | hz
+      · exact hasym _ _ hyx
+      · exact hs'.1 z hz
+    · next hyx =>
+      have hyx : lt y x = false := by simpa using hyx
+      refine List.pairwise_cons.2 ⟨?_, hs⟩
+      intro z hz
+      rcases List.mem_cons.1 hz with rfl | hz
+      · exact hyx
+      · exact hneg z y x (hP z (List.mem_cons_of_mem _ hz)) (hP y List.mem_cons_self) hx
+          (hs'.1 z hz) hyx
+
+theorem isort_sorted_weak (P : α → Prop)
+    (hasym : ∀ a b, lt a b = true → lt b a = false)
+    (hneg : ∀ a b c, P a → P b → P c → lt a b = false → lt b c = false → lt a c = false) :
+    ∀ l : List α, (∀ y ∈ l, P y) → (isort lt l).Pairwise (fun a b => lt b a = false)
+  | [], _ => List.Pairwise.nil
+  | x :: xs, hP =>
+    insertBy_sorted_weak lt P hasym hneg x (hP x List.mem_cons_self) (isort lt xs)
+      (fun y hy => hP y (List.mem_cons_of_mem _ ((mem_isort lt).1 hy)))
+      (isort_sorted_weak P hasym hneg xs (fun y hy => hP y (List.mem_cons_of_mem _ hy)))
+
+/-- strict sortedness, when the inserted element is comparable with every element -/
+theorem insertBy_sorted_strict
+    (htr : ∀ a b c, lt a b = true → lt b c = true → lt a c = true) (x : α) :
+    ∀ l : List α, (∀ y ∈ l, lt x y = true ∨ lt y x = true) →
+      l.Pairwise (fun a b => lt a b = true) → (insertBy lt x l).Pairwise (fun a b => lt a b = true)
+  | [], _, _ => by simp [insertBy]
+  | y :: ys, hc, hs => by
+    have hs' := List.pairwise_cons.1 hs
+    simp only [insertBy]
+    split
+    · next hyx =>
+      refine List.pairwise_cons.2 ⟨?_, insertBy_sorted_strict htr x ys
+        (fun z hz => hc z (List.mem_cons_of_mem _ hz)) hs'.2⟩
+      intro z hz
+      rcases (mem_insertBy lt).1 hz with rfl | hz
+      · exact hyx
+      · exact hs'.1 z hz
+    · next hyx =>
+      have hxy : lt x y = true := by
+        rcases hc y List.mem_cons_self with h | h
+        · exact h
+        · exact absurd h hyx
+      refine List.pairwise_cons.2 ⟨?_, hs⟩
+      intro z hz
+      rcases List.mem_cons.1 hz with rfl | hz
+      · exact hxy
+      · exact htr _ _ _ hxy (hs'.1 z hz)
+
+theorem isort_sorted_strict
+    (htr : ∀ a b c, lt a b = true → lt b c = true → lt a c = true) :
+    ∀ l : List α, l.Pairwise (fun a b => lt a b = true ∨ lt b a = true) →
+      (isort lt l).Pairwise (fun a b => lt a b = true)
+  | [], _ => List.Pairwise.nil
+  | x :: xs, hc => by
+    have hc' := List.pairwise_cons.1 hc
+    exact insertBy_sorted_strict lt htr x (isort lt xs)
+      (fun y hy => hc'.1 y ((mem_isort lt).1 hy)) (isort_sorted_strict htr xs hc'.2)
+
+/-- a strictly sorted list is determined by its elements -/
+theorem sorted_ext (hirr : ∀ a, lt a a = false)
+    (htr : ∀ a b c, lt a b = true → lt b c = true → lt a c = true) :
+    ∀ l1 l2 : List α, l1.Pairwise (fun a b => lt a b = true) → l2.Pairwise (fun a b => lt a b = true) →
+      (∀ x, x ∈ l1 ↔ x ∈ l2) → l1 = l2
+  | [], [], _, _, _ => rfl
+  | [], b :: l2, _, _, h => absurd ((h b).2 List.mem_cons_self) (by simp)
+  | a :: l1, [], _, _, h => absurd ((h a).1 List.mem_cons_self) (by simp)
+  | a :: l1, b :: l2, h1, h2, h => by
+    have h1' := List.pairwise_cons.1 h1
+    have h2' := List.pairwise_cons.1 h2
+    have hne : ∀ u v, lt u v = true → lt v u = true → False := fun u v huv hvu => by
+      have := htr _ _ _ huv hvu
+      rw [hirr] at this
+      exact Bool.noConfusion this
+    have hab : a = b := by
+      rcases List.mem_cons.1 ((h a).1 List.mem_cons_self) with e | ha
+      · exact e
+      · rcases List.mem_cons.1 ((h b).2 List.mem_cons_self) with e | hb
+        · exact e.symm
+        · exact (hne _ _ (h2'.1 a ha) (h1'.1 b hb)).elim
+    subst hab
+    have ht : l1 = l2 := by
+      apply sorted_ext hirr htr l1 l2 h1'.2 h2'.2
+      intro x
+      constructor
+      · intro hx
+        rcases List.mem_cons.1 ((h x).1 (List.mem_cons_of_mem _ hx)) with e | hx'
+        · subst e
+          have := h1'.1 x hx
+          rw [hirr] at this
+          exact Bool.noConfusion this
+        · exact hx'
+      · intro hx
+        rcases List.mem_cons.1 ((h x).2 (List.mem_cons_of_mem _ hx)) with e | hx'
+        · subst e
+          have := h2'.1 x hx
+          rw [hirr] at this
+          exact Bool.noConfusion this
+        · exact hx'
+    rw [ht]
+
+/-- selecting the rows beyond the cursor and sorting them gives the suffix of the
+sorted table after the cursor -/
+theorem isort_filter_suffix (hirr : ∀ a, lt a a = false)
+    (htr : ∀ a b c, lt a b = true → lt b c = true → lt a c = true)
+    (rows : List α) (hc : rows.Pairwise (fun a b => lt a b = true ∨ lt b a = true))
+    (pre : List α) (cur : α) (suf : List α) (hL : isort lt rows = pre ++ cur :: suf) :
+    isort lt (rows.filter (fun r => lt cur r)) = suf := by
+  have hS := isort_sorted_strict lt htr rows hc
+  rw [hL] at hS
+  have hS' := List.pairwise_append.1 hS
+  have hS'' := List.pairwise_cons.1 hS'.2.1
+  apply sorted_ext lt hirr htr
+  · exact isort_sorted_strict lt htr _ (hc.filter _)
+  · exact hS''.2
+  · intro x
+    rw [mem_isort, List.mem_filter]
+    constructor
+    · rintro ⟨hx, hlt⟩
+      have : x ∈ pre ++ cur :: suf := by rw [← hL]; exact (mem_isort lt).2 hx
+      rcases List.mem_append.1 this with hp | hp
+      · have h1 := hS'.2.2 x hp cur List.mem_cons_self
+        have := htr _ _ _ h1 hlt
+        rw [hirr] at this
+        exact Bool.noConfusion this
+      · rcases List.mem_cons.1 hp with e | hp
+        · subst e
+          rw [hirr] at hlt
+          exact Bool.noConfusion hlt
+        · exact hp
+    · intro hx
+      refine ⟨(mem_isort lt).1 ?_, hS''.1 x hx⟩
+      rw [hL]
+      exact List.mem_append_right _ (List.mem_cons_of_mem _ hx)
+
+/-- the paging loop of `iterkeys`, over an arbitrary order -/
+def sortPageLoop (rows : List α) (page : Nat) : Nat → α → List α → List α
+  | 0, _, acc => acc
+  | fuel + 1, cur, acc =>
+    match ((isort lt (rows.filter (fun r => lt cur r))).take page).getLast? with
+    | none => acc
+    | some r => sortPageLoop rows page fuel r (acc ++ (isort lt (rows.filter (fun r => lt cur r))).take page)
+
+theorem sortPageLoop_eq (hirr : ∀ a, lt a a = false)
+    (htr : ∀ a b c, lt a b = true → lt b c = true → lt a c = true)
+    (rows : List α) (hc : rows.Pairwise (fun a b => lt a b = true ∨ lt b a = true))
+    (page : Nat) (hp : 0 < page) :
+    ∀ (fuel : Nat) (pre : List α) (cur : α) (suf acc : List α),
+      isort lt rows = pre ++ cur :: suf → suf.length < fuel →
+      sortPageLoop lt rows page fuel cur acc = acc ++ suf
+  | 0, _, _, _, _, _, hf => absurd hf (Nat.not_lt_zero _)
+  | fuel + 1, pre, cur, suf, acc, hL, hf => by
+    simp only [sortPageLoop]
+    rw [isort_filter_suffix lt hirr htr rows hc pre cur suf hL]
+    split
+    · next hnone =>
+      have := List.getLast?_eq_none_iff.1 hnone
+      rcases List.take_eq_nil_iff.1 this with h | h
+      · omega
+      · simp [h]
+    · next r hsome =>
+      obtain ⟨ys, hys⟩ := List.getLast?_eq_some_iff.1 hsome
+      have hsuf : suf = ys ++ r :: suf.drop page := by
+        conv => lhs; rw [← List.take_append_drop page suf, hys]
+        simp
+      have hL' : isort lt rows = (pre ++ cur :: ys) ++ r :: suf.drop page := by
+        rw [hL]; conv => lhs; rw [hsuf]
+        simp
+      have hlen : (suf.drop page).length < fuel := by
+        have : 0 < suf.length := by
+          cases suf with
+          | nil => simp at hys
+          | cons _ _ => simp
+        rw [List.length_drop]; omega
+      rw [sortPageLoop_eq hirr htr rows hc page hp fuel _ r _ _ hL' hlen, List.append_assoc,
+        List.take_append_drop]
+
+/-- first row, then pages -/
+def sortPageAll (rows : List α) (page : Nat) : List α :=
+  match (isort lt rows).head? with
+  | none => []
+  | some r0 => sortPageLoop lt rows page (rows.length + 1) r0 [r0]
+
+/-- first row, then pages: the whole sorted table -/
+theorem sortPageAll_eq (hirr : ∀ a, lt a a = false)
+    (htr : ∀ a b c, lt a b = true → lt b c = true → lt a c = true)
+    (rows : List α) (hc : rows.Pairwise (fun a b => lt a b = true ∨ lt b a = true))
+    (page : Nat) (hp : 0 < page) :
+    sortPageAll lt rows page = isort lt rows := by
+  unfold sortPageAll
+  cases h : isort lt rows with
+  | nil => rfl
+  | cons r0 suf =>
+    simp only [List.head?_cons]
+    have hlen : suf.length < rows.length + 1 := by
+      have := length_isort lt rows
+      rw [h] at this
+      simp at this
+      omega
+    rw [sortPageLoop_eq lt hirr htr rows hc page hp _ [] r0 suf [r0] (by simpa using h) hlen]
+    rfl
+
+end SortLemmas
+
+/-! ### the `(key, raw)` order -/
+
+theorem keyRawLt_irrefl' (a : SqlVal × Bool) : keyRawLt a a = false := by
+  simp [keyRawLt, SqlVal.lt_irrefl]
+
+theorem keyRawLt_trans' (a b c : SqlVal × Bool) (hab : keyRawLt a b = true)
+    (hbc : keyRawLt b c = true) : keyRawLt a c = true := by
+  obtain ⟨a1, a2⟩ := a
+  obtain ⟨b1, b2⟩ := b
+  obtain ⟨c1, c2⟩ := c
+  simp only [keyRawLt, Bool.or_eq_true, Bool.and_eq_true] at *
+  rcases hab with h1 | ⟨h1, h1'⟩ <;> rcases hbc with h2 | ⟨h2, h2'⟩
+  · exact Or.inl (SqlVal.lt_trans _ _ _ h1 h2)
+  · exact Or.inl (SqlVal.lt_eqv _ _ _ h1 h2)
+  · exact Or.inl (SqlVal.eqv_lt _ _ _ h1 h2)
+  · cases a2 <;> cases b2 <;> cases c2 <;> simp at h1' h2'
+
+theorem keyRawLt_total' (a b : SqlVal × Bool) (ha : a.1 ≠ .null) (hb : b.1 ≠ .null) :
+    keyRawLt a b = true ∨ keyRawLt b a = true ∨ (a.1.eqv b.1 = true ∧ a.2 = b.2) := by
+  obtain ⟨a1, a2⟩ := a
+  obtain ⟨b1, b2⟩ := b
+  simp only [keyRawLt, Bool.or_eq_true, Bool.and_eq_true] at *
+  rcases SqlVal.lt_total a1 b1 ha hb with h | h | h
+  · exact Or.inl (Or.inl h)
+  · exact Or.inr (Or.inl (Or.inl h))
+  · have h' := SqlVal.eqv_symm _ _ h
+    cases a2 <;> cases b2 <;> simp [h, h']
+
+theorem keyRawLt_asymm (a b : SqlVal × Bool) (h : keyRawLt a b = true) : keyRawLt b a = false := by
+  cases h' : keyRawLt b a
+  · rfl
+  · have := keyRawLt_trans' a b a h h'
+    rw [keyRawLt_irrefl'] at this
+    exact Bool.noConfusion this
+
+/-- database-equal keys are interchangeable on the left of the order -/
+theorem keyRawLt_congr_left (a b c : SqlVal × Bool) (he : a.1.eqv b.1 = true) (hr : a.2 = b.2)
+    (h : keyRawLt b c = true) : keyRawLt a c = true := by
+  obtain ⟨a1, a2⟩ := a
+  obtain ⟨b1, b2⟩ := b
+  obtain ⟨c1, c2⟩ := c
+  simp only [keyRawLt, Bool.or_eq_true, Bool.and_eq_true] at *
+  subst hr
+  rcases h with h | ⟨h, h'⟩
+  · exact Or.inl (SqlVal.eqv_lt _ _ _ he h)
+  · exact Or.inr ⟨SqlVal.eqv_trans _ _ _ he h, h'⟩
+
+theorem keyRawLt_congr_right (a b c : SqlVal × Bool) (he : a.1.eqv b.1 = true) (hr : a.2 = b.2)
+    (h : keyRawLt c a = true) : keyRawLt c b = true := by
+  obtain ⟨a1, a2⟩ := a
+  obtain ⟨b1, b2⟩ := b
+  obtain ⟨c1, c2⟩ := c
+  simp only [keyRawLt, Bool.or_eq_true, Bool.and_eq_true] at *
+  subst hr
+  rcases h with h | ⟨h, h'⟩
+  · exact Or.inl (SqlVal.lt_eqv _ _ _ h he)
+  · exact Or.inr ⟨SqlVal.eqv_trans _ _ _ h he, h'⟩
+
+/-- negative transitivity on non-NULL keys (the order is a strict weak order) -/
+theorem keyRawLt_negtrans (a b c : SqlVal × Bool) (ha : a.1 ≠ .null) (hb : b.1 ≠ .null)
+    (_hc : c.1 ≠ .null) (hab : keyRawLt a b = false) (hbc : keyRawLt b c = false) :
+    keyRawLt a c = false := by
+  cases hac : keyRawLt a c
+  · rfl
+  · rcases keyRawLt_total' a b ha hb with h | h | ⟨he, hr⟩
+    · rw [hab] at h; exact Bool.noConfusion h
+    · have := keyRawLt_trans' b a c h hac
+      rw [hbc] at this; exact Bool.noConfusion this
+    · have := keyRawLt_congr_left b a c (SqlVal.eqv_symm _ _ he) hr.symm hac
+      rw [hbc] at this; exact Bool.noConfusion this
+
+namespace Cache
+
+theorem keyRawLtRow_irrefl (a : Row) : keyRawLtRow a a = false := keyRawLt_irrefl' _
+
+theorem keyRawLtRow_trans (a b c : Row) : keyRawLtRow a b = true → keyRawLtRow b c = true →
+    keyRawLtRow a c = true := keyRawLt_trans' _ _ _
+
+theorem keysUnique_comparable (rows : List Row) (hu : KeysUnique rows)
+    (hn : ∀ r ∈ rows, r.key ≠ .null) :
+    rows.Pairwise (fun a b => keyRawLtRow a b = true ∨ keyRawLtRow b a = true) := by
+  refine List.Pairwise.imp_of_mem ?_ hu
+  intro a b ha hb hne
+  rcases keyRawLt_total' (a.key, a.raw) (b.key, b.raw) (hn a ha) (hn b hb) with h | h | h
+  · exact Or.inl h
+  · exact Or.inr h
+  · exact absurd h hne
+
+theorem isort_sorted_keys' (rows : List Row) (hn : ∀ r ∈ rows, r.key ≠ .null) :
+    (isort keyRawLtRow rows).Pairwise (fun a b => keyRawLtRow b a = false) :=
+  isort_sorted_weak keyRawLtRow (fun r => r.key ≠ .null)
+    (fun _ _ h => keyRawLt_asymm _ _ h)
+    (fun _ _ _ ha hb hc h1 h2 => keyRawLt_negtrans _ _ _ ha hb hc h1 h2) rows hn
+
+/-- the order `iterkeys` pages in -/
+def iterLt (rev : Bool) (a b : Row) : Bool := if rev then keyRawLtRow b a else keyRawLtRow a b
+
+theorem iterLt_irrefl (rev : Bool) (a : Row) : iterLt rev a a = false := by
+  cases rev <;> simp [iterLt, keyRawLtRow_irrefl]
+
+theorem iterLt_trans (rev : Bool) (a b c : Row) : iterLt rev a b = true → iterLt rev b c = true →
+    iterLt rev a c = true := by
+  cases rev <;> simp only [iterLt, if_true, if_false, Bool.false_eq_true]
+  · exact keyRawLtRow_trans a b c
+  · exact fun h1 h2 => keyRawLtRow_trans c b a h2 h1
+
+theorem iterLt_comparable (rev : Bool) (rows : List Row) (hu : KeysUnique rows)
+    (hn : ∀ r ∈ rows, r.key ≠ .null) :
+    rows.Pairwise (fun a b => iterLt rev a b = true ∨ iterLt rev b a = true) := by
+  refine (keysUnique_comparable rows hu hn).imp ?_
+  intro a b h
+  cases rev <;> simp only [iterLt, if_true, if_false, Bool.false_eq_true]
+  · exact h
+  · exact h.symm
+
+theorem iterkeysLoop_spec (rev : Bool) : ∀ (fuel : Nat) (s : Cache) (cur : Row) (acc : List Row),
+    (iterkeysLoop rev fuel s cur acc).2 = sortPageLoop (iterLt rev) s.rows s.cfg.page fuel cur acc ∧
+    (iterkeysLoop rev fuel s cur acc).1.cfg = s.cfg
+  | 0, _, _, _ => ⟨rfl, rfl⟩
+  | fuel + 1, s, cur, acc => by
+    simp only [iterkeysLoop, sortPageLoop, lastRow?]
+    split
+    · next h =>
+      have h' : ((isort (iterLt rev) (s.rows.filter (fun r => iterLt rev cur r))).take s.cfg.page).getLast?
+          = none := h
+      rw [h']
+      exact ⟨rfl, rfl⟩
+    · next r h =>
+      have h' : ((isort (iterLt rev) (s.rows.filter (fun r => iterLt rev cur r))).take s.cfg.page).getLast?
+          = some r := h
+      rw [h']
+      exact iterkeysLoop_spec rev fuel (s.logSql "pageKey") r _
+
+theorem iterkeys_spec (s : Cache) (E : Externals) (rev : Bool) :
+    (s.iterkeys E rev).2 =
+      .list ((sortPageAll (iterLt rev) s.rows s.cfg.page).map
+          (fun (r : Row) => keyOut E s.cfg.disk r.key r.raw)) := by
+  simp only [iterkeys, sortPageAll]
+  have hs : isort (fun a b => if rev = true then keyRawLtRow b a else keyRawLtRow a b) s.rows
+      = isort (iterLt rev) s.rows := rfl
+  rw [hs]
+  cases h : (isort (iterLt rev) s.rows).head? with
+  | none => rfl
+  | some r0 =>
+    simp only []
+    have := iterkeysLoop_spec rev ((s.logSql "firstKey").rows.length + 1) (s.logSql "firstKey") r0 [r0]
+    rw [this.1, this.2]
+    rfl
+
+theorem iterkeys_all' (s : Cache) (E : Externals) (rev : Bool) (hu : KeysUnique s.rows)
+    (hn : ∀ r ∈ s.rows, r.key ≠ .null) (hp : 0 < s.cfg.page) :
+    (s.iterkeys E rev).2 =
+      .list ((isort (iterLt rev) s.rows).map (fun r => keyOut E s.cfg.disk r.key r.raw)) := by
+  rw [iterkeys_spec, sortPageAll_eq (iterLt rev) (iterLt_irrefl rev) (iterLt_trans rev) s.rows
+    (iterLt_comparable rev s.rows hu hn) s.cfg.page hp]
+
+end Cache
+
 end DC
